@@ -304,7 +304,7 @@ def check_C06(tier):
     stats2, n2 = run_obs("C06", "TOK", obs_path, by_id, v, lambda r, o: "%r: the parser's token tree differs from the documented reading" % L.expr_of(o))
     # the rule checker as a machine (RuleImpl.tla): the recorded visits of the real rule::branch are validated against
     # it; a branch checked against a context that is not its own contradicts C06 whatever the verdict
-    out3, stats3 = C.tlc("RuleTrace.tla", "RuleTrace.cfg", env={"OBS": obs_path}, timeout=3000, java_opts=["-Xmx12g"])
+    out3, stats3 = C.tlc("RuleTrace.tla", "RuleTrace.cfg", env={"OBS": obs_path, "RT_SELFCHECK_EVERY": "4" if tier == "quick" else "1"}, timeout=3000, java_opts=["-Xmx12g"])
     if not stats3["ok"]:
         C.log(stats3.get("tail", ""))
         raise C.ToolError("TLC did not complete on RuleTrace")
@@ -831,12 +831,14 @@ def check_C04(tier):
         C.log(tstats.get("tail", ""))
         raise C.ToolError("TLC did not complete on CaptureCheck")
     nd = 0
+    caps_of = {(c["id"], tuple(c["path"])): c["caps"] for c in crecs}
     for r in C.tlc_records(tout):
         if r["t"] != "DISAGREE":
             continue
         nd += 1
         o = by_id[r["id"]]
-        caps = crecs[r["rec"] - 1]["caps"]
+        # (a record index is local to the shard TLC read: the capture vector is looked up by expression and path)
+        caps = caps_of[(r["id"], tuple(r["path"]))]
         v.disagree(r, "%r on path %r captures %s: %s" % (L.expr_of(o), C.text(r["path"]), [C.text(c["s"]) if c["some"] else None for c in caps], r["what"]),
                    pin=C.pin_of(dict(o, _caps=caps), extra=json.dumps(r["path"])))
     with_caps = [c for c in crecs if len(c["caps"]) > 2]
